@@ -125,22 +125,21 @@ func (s *session) delete() error {
 			)
 			continue
 		}
-		if unescapedKey != "" {
-			// Only delete the record if it still belongs to this session, and make the
-			// delete conditional, in case the record gets overwritten in the meantime
-			current, err := s.sm.leaderController.db.Get(&proto.GetRequest{Key: unescapedKey})
-			if err != nil {
-				return err
-			}
-			if current.Status != proto.Status_OK || current.Version.SessionId == nil ||
-				*current.Version.SessionId != int64(s.id) {
-				continue
-			}
-			deletes = append(deletes, &proto.DeleteRequest{
-				Key:               unescapedKey,
-				ExpectedVersionId: &current.Version.VersionId,
-			})
+		// Only delete the record if it still belongs to this session, and make the
+		// delete conditional, in case the record gets overwritten in the meantime.
+		// The empty key is a key like any other: the server accepts a record under it.
+		current, err := s.sm.leaderController.db.Get(&proto.GetRequest{Key: unescapedKey})
+		if err != nil {
+			return err
 		}
+		if current.Status != proto.Status_OK || current.Version.SessionId == nil ||
+			*current.Version.SessionId != int64(s.id) {
+			continue
+		}
+		deletes = append(deletes, &proto.DeleteRequest{
+			Key:               unescapedKey,
+			ExpectedVersionId: &current.Version.VersionId,
+		})
 	}
 
 	// Delete the base session metadata
